@@ -105,6 +105,32 @@ func genC02(t *rapid.T) any {
 			}
 		}
 	}
+	if c.Star == 0 && rapid.IntRange(0, 2).Draw(t, "shadow") == 0 {
+		// output names spelled like source columns (SELECT b AS a, a AS b): an alias names an output
+		// column, it never changes what a column reference in another item reads
+		taken := map[string]bool{}
+		for _, it := range c.Items {
+			if it.Alias == "" {
+				taken[it.Expr.S] = true
+			}
+		}
+		var cols []string
+		for _, col := range pt.Tb.Cols {
+			cols = append(cols, col.Name)
+		}
+		cols = append(cols, pt.ObjKeys...)
+		cols = append(cols, "nokey")
+		for i := range c.Items {
+			if c.Items[i].Alias == "" || rapid.Bool().Draw(t, fmt.Sprintf("shadow%d", i)) {
+				continue
+			}
+			name := rapid.SampledFrom(cols).Draw(t, fmt.Sprintf("shadow%d.name", i))
+			if !taken[name] {
+				taken[name] = true
+				c.Items[i].Alias = name
+			}
+		}
+	}
 	if rapid.IntRange(0, 2).Draw(t, "haswhere") == 0 {
 		c.Where = pt.genBoolExpr(t, 1, "w")
 	}
@@ -218,6 +244,8 @@ func checkC02(c *C02Case) Result {
 		res.Labels = append(res.Labels, it.Expr.Kinds()...)
 		if it.Alias == "" {
 			res.Labels = append(res.Labels, "bare-column")
+		} else if !strings.HasPrefix(it.Alias, "o") {
+			res.Labels = append(res.Labels, "alias-spelled-like-column")
 		}
 		if it.Expr.K == "col" && strings.Contains(it.Expr.S, ".") {
 			res.Labels = append(res.Labels, "nested-path")
